@@ -16,14 +16,14 @@ Theorem C38_not_implemented_exact :
 Proof. exact not_implemented_exact. Qed.
 Print Assumptions C38_not_implemented_exact.
 
-(* the table is complete against the model's operation list: the 31 other operations are always forwarded,
+(* the table is complete against the model's operation list: the 35 other operations are always forwarded,
    and A / ranged C / versioned T are the only ones that are not *)
 Theorem C38_forwarded_operations :
   Forall (fun op => forall rest, not_implemented (op :: rest) = false)
-    [B"P"; B"H"; B"G"; B"D"; B"X"; B"L"; B"V"; B"t+"; B"t?"; B"t-"; B"MC"; B"MP"; B"MF"; B"MA"; B"MQ"; B"MY"; B"ML";
+    [B"P"; B"H"; B"G"; B"D"; B"X"; B"L"; B"V"; B"t+"; B"t?"; B"t-"; B"MC"; B"MP"; B"MF"; B"MA"; B"MQ"; B"MY"; B"ML"; B"LW"; B"VW"; B"MLW"; B"MQW";
      B"BL"; B"BH"; B"BV"; B"BC"; B"BD"; B"OP"; B"OG"; B"OD"; B"YP"; B"YG"; B"YD"; B"WP"; B"WG"; B"WD"]
   /\ (forall op, In op known_ops ->
-        In op [B"P"; B"H"; B"G"; B"D"; B"X"; B"L"; B"V"; B"t+"; B"t?"; B"t-"; B"MC"; B"MP"; B"MF"; B"MA"; B"MQ"; B"MY"; B"ML";
+        In op [B"P"; B"H"; B"G"; B"D"; B"X"; B"L"; B"V"; B"t+"; B"t?"; B"t-"; B"MC"; B"MP"; B"MF"; B"MA"; B"MQ"; B"MY"; B"ML"; B"LW"; B"VW"; B"MLW"; B"MQW";
                B"BL"; B"BH"; B"BV"; B"BC"; B"BD"; B"OP"; B"OG"; B"OD"; B"YP"; B"YG"; B"YD"; B"WP"; B"WG"; B"WD"]
         \/ op = B"A" \/ op = B"C" \/ op = B"T").
 Proof.
